@@ -5,6 +5,7 @@ from skgstat import Variogram, OrdinaryKriging, models
 from skgstat.interfaces.variogram_estimator import VariogramEstimator
 
 from .common import quiet, frs, parse_nums, close, all_close, gen_coords, gen_values
+from .common import guarded
 
 INFO = dict(
     rule='seeded data sets x models (6 single models, 2- and 3-term sums) x use_nugget x fit method {trf, lm, manual '
@@ -66,6 +67,7 @@ def build(case):
     return V
 
 
+@guarded
 def check_case(ctx, case):
     try:
         V = build(case)
@@ -202,21 +204,48 @@ def check_case(ctx, case):
                               case, signature=dict(kind='layout', method=case['method']))
         ctx.lean.ask(['c04', 'views', KIND[model], '1' if un else '0', frs(cof)], cb)
     # ---- metrics -------------------------------------------------------------------------------
-    if not np.any(np.isnan(exp)):
+    check_metrics(ctx, V, case, exp, edges, 'fresh')
+    # the same instance after its lag edges changed (same number of classes, other maxlag / binning): every
+    # metric must follow the new edges and the new experimental values
+    step = ('maxlag', 'median' if case['maxlag'] is None else None) if case['n_lags'] % 2 else ('bin_func', 'uniform')
+    try:
+        with quiet():
+            if step[0] == 'maxlag':
+                V.maxlag = step[1]
+            else:
+                V.bin_func = step[1]
+            edges2 = np.asarray(V.bins, float)
+            exp2 = np.asarray(V.experimental, float)
+            V.describe()
+    except (RuntimeError, ValueError, ZeroDivisionError, AttributeError, OverflowError, TypeError) as e:
+        ctx.reject('rebinned:' + type(e).__name__)
+        return
+    if not all_close(edges2, edges, rel=1e-12):
+        check_metrics(ctx, V, case, exp2, edges2, 'after %s=%r on the same instance' % step)
+
+
+@guarded
+def check_metrics(ctx, V, case, exp, edges, tag):
+    if np.any(np.isnan(exp)):
+        return
+    try:
         with quiet():
             mod = np.asarray(V.transform(edges), float)
             got = dict(rmse=float(V.rmse), mse=float(V.mse), mae=float(V.mae), rss=float(V.rss), nrmse=float(V.nrmse),
                        residuals=np.asarray(V.model_residuals, float))
-        res = mod - exp
-        want = dict(rmse=math.sqrt(np.mean(res ** 2)), mse=float(np.mean(res ** 2)), mae=float(np.mean(np.abs(res))),
-                    rss=float(np.sum(res ** 2)), nrmse=math.sqrt(np.mean(res ** 2)) / float(np.mean(exp)))
-        ctx.count('metrics_checked')
-        for k, w in want.items():
-            if not close(got[k], w, rel=1e-9, abs_=1e-12):
-                ctx.violation('metric-' + k, '%s = %r, documented definition gives %r' % (k, got[k], w), case)
-                return
-        if not all_close(got['residuals'], res, rel=1e-9, abs_=1e-12):
-            ctx.violation('metric-residuals', 'model_residuals differ from model - experimental', case)
+    except (RuntimeError, ValueError, ZeroDivisionError, AttributeError, OverflowError) as e:
+        ctx.reject('metrics:' + type(e).__name__)
+        return
+    res = mod - exp
+    want = dict(rmse=math.sqrt(np.mean(res ** 2)), mse=float(np.mean(res ** 2)), mae=float(np.mean(np.abs(res))),
+                rss=float(np.sum(res ** 2)), nrmse=math.sqrt(np.mean(res ** 2)) / float(np.mean(exp)))
+    ctx.count('metrics_checked:' + tag.split(' ')[0])
+    for k, w in want.items():
+        if not close(got[k], w, rel=1e-9, abs_=1e-12):
+            ctx.violation('metric-' + k, '%s (%s) = %r, documented definition gives %r' % (k, tag, got[k], w), case)
+            return
+    if not all_close(got['residuals'], res, rel=1e-9, abs_=1e-12):
+        ctx.violation('metric-residuals', 'model_residuals (%s) differ from model - experimental' % tag, case)
 
 
 def run(ctx):
